@@ -7,6 +7,9 @@ use async_trait::async_trait;
 use log::{debug, trace, warn};
 use rayon::prelude::*;
 use tokio::sync::mpsc::Sender;
+#[cfg(saito_verif)]
+use crate::core::util::verif::RwLock;
+#[cfg(not(saito_verif))]
 use tokio::sync::RwLock;
 
 use crate::core::consensus::block::Block;
